@@ -393,7 +393,7 @@ var checks = map[string]Check{
 	},
 	"C10": {
 		Level:       "exploration",
-		Rule:        "(i) both exported mappers on every identifier of length <=6 (quick) / 8 over {A,B,a,b,_,1} x 5 prefixes: total, deterministic, equal to a reference implementation on the sub-language the documentation defines (letter words joined by _ or __), README rows verbatim; (ii) live dispatch: every ordered pair of 10 compiled controller/function registrations (chosen to cover every mapping rule and name-collision class) x 3x3 group nestings x both mappers x unknown-handlers set/unset; after registration every returned name and 10+ near-misses per name are requested as CALL and as PUSH; (iii) a header plugin that rewrites the requested name (aliases, case folding) x 11 wire names x CALL/PUSH x unknown-handlers: the handler registered under the rewritten name runs and sees that name; a case = one (identifier, prefix) or one registration program",
+		Rule:        "(i) both exported mappers on every identifier of length <=6 (quick) / 8 over {A,B,a,b,_,1} x 5 prefixes: total, deterministic, equal to a reference implementation on the sub-language the documentation defines (letter words joined by _ or __), README rows verbatim; (ii) live dispatch: every ordered pair of 10 compiled controller/function registrations (chosen to cover every mapping rule and name-collision class) x 3x3 group nestings x both mappers x unknown-handlers set/unset; after registration every returned name and 15+ near-misses per name (case, separators, trailing and doubled slashes, ./ and ../ segments) are requested as CALL and as PUSH, over the raw protocol and (CALL, URL-path names) over the HTTP-style protocol; registrations also with logging switched off; (iii) a header plugin that rewrites the requested name (aliases, case folding) x 11 wire names x CALL/PUSH x unknown-handlers: the handler registered under the rewritten name runs and sees that name; a case = one (identifier, prefix) or one registration program",
 		Assumptions: []string{"the framework's Fatalf is intercepted by a logger outputter that panics on CRITICAL, so a registration conflict is observable without exiting", "identifier classes with leading/trailing/3+ underscores or digits are checked for totality and determinism only (the documentation does not define their mapping)"},
 		Jobs: func(tier string) []Job {
 			l := "6"
@@ -403,6 +403,7 @@ var checks = map[string]Check{
 			return []Job{
 				{Mode: "enum", Name: "c10_mapper", Params: "len=" + l, Shards: 8},
 				sched("c10_route", "", 0, 16),
+				sched("c10_route", "proto=http", 0, 8),
 				sched("c10_rewrite", "", 0, 1),
 			}
 		},
@@ -550,7 +551,7 @@ var checks = map[string]Check{
 	},
 	"C18": {
 		Level:       "model_checking",
-		Rule:        "(a) all histories up to depth 5 (quick) / 7 over {connect, remote close i, local close i, update limit to 0 (off)/1/2/3} with N in {1,2} against a counter model (admit iff the limit is off or live < limit, where live counts every admitted session that has not ended, rejected closed, CountSession exact); (b) all interleavings (preemption bound) of 3 concurrent connects with one early disconnect: never more than N admitted at once and exactly N admitted afterwards; (c) token bucket: taker threads x attempts against refill ticks delivered to the limiter's own goroutine, all interleavings: admitted <= capacity + refill x ticks + ticks; (d) live session: every history of depth 6 (quick) / 7 over {call to an unlimited route, call to a route with a handler limit, push, refill tick, change of the refill interval}: a call is OK iff its handler ran, a rejected call carries the overload error and is not handled, and no message is admitted when an exact token count (full at the start, +1 per tick up to the capacity, -1 per admission) says the total or the handler bucket is empty",
+		Rule:        "(a) all histories up to depth 5 (quick) / 7 over {connect, remote close i, local close i, update limit to 0 (off)/1/2/3} with N in {1,2} against a counter model (admit iff the limit is off or live < limit, where live counts every admitted session that has not ended, rejected closed, CountSession exact); (b) all interleavings (preemption bound) of 3 concurrent connects with one early disconnect: never more than N admitted at once and exactly N admitted afterwards; (c) token bucket: taker threads x attempts against refill ticks delivered to the limiter's own goroutine, all interleavings: admitted <= capacity + refill x ticks + ticks; (e) limit on a dialing peer whose sessions redial: every history of depth 6 (quick) / 8 over {dial, server cuts session i (auto-redial), close session i} with N in {1,2}: a reconnecting session keeps exactly its one slot; (d) live session: every history of depth 6 (quick) / 7 over {call to an unlimited route, call to a route with a handler limit, push, refill tick, change of the refill interval}: a call is OK iff its handler ran, a rejected call carries the overload error and is not handled, and no message is admitted when an exact token count (full at the start, +1 per tick up to the capacity, -1 per admission) says the total or the handler bucket is empty",
 		Assumptions: baseAssumptions,
 		Jobs: func(tier string) []Job {
 			if tier == "thorough" {
@@ -563,11 +564,17 @@ var checks = map[string]Check{
 				d.Budget = 600
 				live := sched("c18_live", "depth=7", 0, 8)
 				live.EnvOnly = true
-				return []Job{a, b, c, d, live}
+				rd := sched("c18_redial", "depth=8", 0, 8)
+				rd.EnvOnly = true
+				rd2 := sched("c18_redial", "depth=4", 0, 8)
+				rd2.Budget = 300
+				return []Job{a, b, c, d, live, rd, rd2}
 			}
 			live := sched("c18_live", "depth=6", 0, 4)
 			live.EnvOnly = true
-			return []Job{live, sched("c18_hist", "depth=5,off=1", 0, 4), sched("c18_race", "threads=3", 2, 8), sched("c18_qps", "takers=2,takes=3,ticks=2", 2, 2), sched("c18_qps", "takers=1,takes=6,ticks=1", 3, 1)}
+			rd := sched("c18_redial", "depth=6", 0, 2)
+			rd.EnvOnly = true
+			return []Job{live, rd, sched("c18_hist", "depth=5,off=1", 0, 4), sched("c18_race", "threads=3", 2, 8), sched("c18_qps", "takers=2,takes=3,ticks=2", 2, 2), sched("c18_qps", "takers=1,takes=6,ticks=1", 3, 1)}
 		},
 	},
 	"C19": {
@@ -652,6 +659,10 @@ var checks = map[string]Check{
 					js = append(js, j)
 				}
 			}
+			// the dialing peer runs the overload plugin with a connection limit: a session that reconnects keeps its slot
+			rd := sched("c18_redial", "depth=6", 0, 2)
+			rd.EnvOnly = true
+			js = append(js, rd)
 			// repeated losses: the reconnected session loses its new connection again (break, then remote close)
 			for _, prm := range []string{"fault=idle,budget=1,down=0,losses=3", "fault=idle,budget=1,down=1,losses=3", "fault=idle,budget=2,down=1,losses=4", "fault=idle,budget=2,down=2,losses=3", "fault=idle,budget=-1,down=3,losses=3", "fault=awaiting,budget=2,down=1,losses=2", "fault=write,budget=1,down=0,losses=2", "fault=idle,budget=1,down=0,losses=2,setid=0"} {
 				j := sched("c13", prm, 0, 1)
